@@ -788,6 +788,84 @@ func TestC12SlowReader(t *testing.T) {
 	})
 }
 
+// TestC12SteadyReader: a long answer to a client that keeps reading, a few milliseconds per
+// frame. The whole run of output takes several send timeouts, but no single write is blocked
+// for anywhere near the send timeout, so nothing may be dropped: every message arrives, in
+// order. (The send timeout bounds one blocked write, not an uninterrupted run of output.) A case
+// in which the reader itself was held up for more than a third of the send timeout between two
+// reads decides nothing.
+func TestC12SteadyReader(t *testing.T) {
+	col := ev.For("C12").SetRule(c12Rule)
+	rapid.Check(t, func(t *rapid.T) {
+		opt := openOptions()
+		opt.SendTimeout = time.Duration(rapid.SampledFrom([]int{600, 900}).Draw(t, "send_timeout_ms")) * time.Millisecond
+		// pings stay at their default of one minute: a ping's pong queues behind the buffered
+		// output, and the relay gives a pong the send timeout to arrive - with seconds of output
+		// in the socket buffers a fast ping fails by design, which is not what is judged here
+		perFrame := time.Duration(rapid.IntRange(2, 5).Draw(t, "reader_ms_per_frame")) * time.Millisecond
+		// enough output that the writer is kept busy for well over the send timeout even though the
+		// socket buffers (a few megabytes on loopback) let it run ahead of the reader
+		size := rapid.SampledFrom([]int{48 << 10, 64 << 10}).Draw(t, "message_bytes")
+		nmsg := int(3 * opt.SendTimeout / perFrame)
+		desc := map[string]any{"mode": "steady-reader", "send_timeout": opt.SendTimeout.String(), "ping": opt.PingDuration.String(), "reader_per_frame": perFrame.String(), "handler_messages": nmsg, "message_bytes": size}
+		h := newRecHandler()
+		rig := newWSRig(opt, h)
+		defer rig.close()
+		c, err := dial(rig.url)
+		if err != nil {
+			t.Fatalf("dial: %v", err)
+		}
+		defer c.CloseNow()
+		var out []mocrelay.ServerMsg
+		pad := strings.Repeat("s", size)
+		for i := 0; i < nmsg; i++ {
+			out = append(out, mocrelay.NewServerNoticeMsg(fmt.Sprintf("steady %d %s", i, pad)))
+		}
+		h.setEmit(out)
+		ctx := context.Background()
+		if err := c.Write(ctx, websocket.MessageText, []byte(`["CLOSE","`+sentinelPrefix+`steady-emit"]`)); err != nil {
+			t.Skipf("decides nothing: %v", err)
+		}
+		next, worstGap := 0, time.Duration(0)
+		t0 := time.Now()
+		for {
+			rctx, cancel := context.WithTimeout(ctx, waitLong)
+			_, b, err := c.Read(rctx)
+			cancel()
+			if err != nil {
+				if worstGap > opt.SendTimeout/3 {
+					col.Exclude("steady-reader:reader-held-up")
+					t.Skipf("decides nothing: the reader was held up for %v", worstGap)
+				}
+				hx.Fail(t, ev.Failure{Property: "C12", Signature: "output-lost-steady-reader", Clause: "every message the handler emits reaches the client, in emission order (the client reads steadily; no write was blocked for the send timeout)",
+					Case: desc, Observed: fmt.Sprintf("connection lost after %d of %d messages, %v after the start: %v (longest pause of the reader %v)", next, nmsg, time.Since(t0).Round(time.Millisecond), err, worstGap), Expected: "all messages"})
+			}
+			if len(b) < 1000 {
+				if strings.Contains(string(b), "steady-emit") {
+					break
+				}
+				continue
+			}
+			want := fmt.Sprintf(`["NOTICE","steady %d `, next)
+			if !strings.HasPrefix(string(b), want) {
+				hx.Fail(t, ev.Failure{Property: "C12", Signature: "output-order", Clause: "every message the handler emits reaches the client, in emission order", Case: desc,
+					Observed: "frame starts with " + string(b[:40]), Expected: want})
+			}
+			next++
+			g0 := time.Now()
+			time.Sleep(perFrame)
+			if g := time.Since(g0); g > worstGap {
+				worstGap = g
+			}
+		}
+		if next != nmsg {
+			hx.Fail(t, ev.Failure{Property: "C12", Signature: "output-lost-steady-reader", Clause: "every message the handler emits reaches the client", Case: desc, Observed: fmt.Sprintf("%d of %d messages before the end marker", next, nmsg), Expected: "all"})
+		}
+		col.Label("mode:steady-reader")
+		col.Case(time.Since(t0) > opt.SendTimeout, hx.JSON(desc), func() any { return desc })
+	})
+}
+
 // slowRec takes a little time per message, as a handler that stores does.
 type slowRec struct {
 	mu    sync.Mutex
